@@ -200,7 +200,7 @@ theorem Tr.init_inv (m n : Nat) (A : Mat) : (Tr.init m n A).Inv A := by
   · intro r (hr : r < m) c (hc : c < m)
     show ∑ k ∈ range m, ent (idMat m) r k * ent (idMat m) k c = _
     rw [Finset.sum_congr rfl (fun k hk => by rw [ent_idMat hr (mem_range.mp hk), ent_idMat (mem_range.mp hk) hc])]
-    simp [kron] <;> omega
+    simp [kron]; omega
 
 theorem Tr.swapRows_inv (A : Mat) (t t' : Tr) (i j : Nat) (h : t.swapRows i j = ok t') (hI : t.Inv A) :
     t'.Inv A ∧ t'.m = t.m ∧ t'.n = t.n := by
@@ -358,5 +358,253 @@ theorem Tr.run_inv (A : Mat) (ops : List Prim) : ∀ (t t' : Tr), t.run ops = ok
     obtain ⟨hI1, hm1, hn1⟩ := Tr.apply_inv A t t1 op h1 hI
     obtain ⟨hI2, hm2, hn2⟩ := ih t1 t' h2 hI1
     exact ⟨hI2, hm2.trans hm1, hn2.trans hn1⟩
+
+/-! ### every returning run of the literal model is a sequence of primitives -/
+
+/-- `t'` is obtained from `t` by a sequence of row primitives -/
+def Reach (t t' : Tr) : Prop := ∃ ops : List Prim, t.run ops = ok t'
+
+theorem Tr.run_append (a b : List Prim) : ∀ t : Tr, t.run (a ++ b) = (t.run a >>= fun t1 => t1.run b) := by
+  induction a with
+  | nil => intro t; simp [Tr.run]
+  | cons op a ih =>
+    intro t
+    simp only [List.cons_append, Tr.run]
+    cases h : t.apply op with
+    | ok t1 => simp [ih t1]
+    | panic => simp
+    | err => simp
+
+theorem Reach.refl (t : Tr) : Reach t t := ⟨[], rfl⟩
+theorem Reach.trans {a b c : Tr} (h1 : Reach a b) (h2 : Reach b c) : Reach a c := by
+  obtain ⟨o1, h1⟩ := h1
+  obtain ⟨o2, h2⟩ := h2
+  exact ⟨o1 ++ o2, by rw [Tr.run_append, h1]; exact h2⟩
+theorem Reach.step {t t' : Tr} (op : Prim) (h : t.apply op = ok t') : Reach t t' :=
+  ⟨[op], by simp [Tr.run, h]⟩
+
+theorem Data.addRowTo_reach (d d' : Data) (i k : Nat) (r : Int) (h : d.addRowTo i k r = ok d') :
+    Reach d.tr d'.tr := by
+  unfold Data.addRowTo at h
+  simp only [bind_eq_ok] at h
+  obtain ⟨tr, h1, di, _, h⟩ := h
+  simp only [pure_eq, Res.ok.injEq] at h
+  subst h
+  exact Reach.step (.add i k r) h1
+
+theorem Data.mulRow_reach (d d' : Data) (i : Nat) (r : Int) (h : d.mulRow i r = ok d') :
+    Reach d.tr d'.tr := by
+  unfold Data.mulRow at h
+  simp only [bind_eq_ok] at h
+  obtain ⟨tr, h1, h⟩ := h
+  simp only [pure_eq, Res.ok.injEq] at h
+  subst h
+  exact Reach.step (.mul i r) h1
+
+theorem Data.swap_reach (d d' : Data) (k : Nat) (h : d.swap k = ok d') : Reach d.tr d'.tr := by
+  unfold Data.swap at h
+  simp only [bind_eq_ok] at h
+  obtain ⟨_, _, tr, h1, _, _, _, _, _, _, _, _, h⟩ := h
+  simp only [pure_eq, Res.ok.injEq] at h
+  subst h
+  exact Reach.step (.swap (k - 1) k) h1
+
+theorem Data.reduce_reach (d d' : Data) (i k : Nat) (h : d.reduce i k = ok d') : Reach d.tr d'.tr := by
+  unfold Data.reduce at h
+  simp only [bind_eq_ok] at h
+  obtain ⟨_, _, _, _, di, _, q, _, h⟩ := h
+  split at h
+  · exact Data.addRowTo_reach d d' i k _ h
+  · simp only [pure_eq, Res.ok.injEq] at h
+    subst h
+    exact Reach.refl _
+
+theorem Data.mulRowIf_reach (d d' : Data) (i : Nat) (u : Int) (h : d.mulRowIf i u = ok d') : Reach d.tr d'.tr := by
+  unfold Data.mulRowIf at h
+  split at h
+  · exact Data.mulRow_reach d d' i u h
+  · simp only [pure_eq, Res.ok.injEq] at h
+    subst h
+    exact Reach.refl _
+
+theorem hnfReduce_reach (d d' : Data) (i k : Nat) (h : hnfReduce d i k = ok d') : Reach d.tr d'.tr := by
+  unfold hnfReduce at h
+  simp only [bind_eq_ok] at h
+  obtain ⟨_, _, _, _, h⟩ := h
+  split at h
+  · simp only [bind_eq_ok] at h
+    obtain ⟨d1, h1, q, _, h⟩ := h
+    have r1 := Data.mulRowIf_reach d d1 i _ h1
+    split at h
+    · exact r1.trans (Data.addRowTo_reach d1 d' i k _ h)
+    · simp only [pure_eq, Res.ok.injEq] at h
+      subst h
+      exact r1
+  · exact Data.reduce_reach d d' i k h
+
+theorem revLoop_reach (f : Data → Nat → Res Data) (hf : ∀ d d' i, f d i = ok d' → Reach d.tr d'.tr) :
+    ∀ (n : Nat) (d d' : Data), revLoop f d n = ok d' → Reach d.tr d'.tr := by
+  intro n
+  induction n with
+  | zero => intro d d' h; simp only [revLoop, pure_eq, Res.ok.injEq] at h; subst h; exact Reach.refl _
+  | succ i ih =>
+    intro d d' h
+    simp only [revLoop, bind_eq_ok] at h
+    obtain ⟨d1, h1, h2⟩ := h
+    exact (hf d d1 i h1).trans (ih d1 d' h2)
+
+theorem Data.next_tr (d : Data) : d.next.tr = d.tr := rfl
+theorem Data.back_tr (d : Data) : d.back.tr = d.tr := by unfold Data.back; split <;> rfl
+
+theorem lllIterate_reach (d d' : Data) (h : lllIterate d = ok d') : Reach d.tr d'.tr := by
+  unfold lllIterate at h
+  simp only [bind_eq_ok] at h
+  obtain ⟨d1, h1, b, _, h⟩ := h
+  have r1 := Data.reduce_reach d d1 _ _ h1
+  cases b with
+  | true =>
+    simp only [if_true, bind_eq_ok, pure_eq, Res.ok.injEq] at h
+    obtain ⟨d2, h2, h⟩ := h
+    subst h
+    rw [Data.next_tr]
+    exact r1.trans (revLoop_reach _ (fun d d' i h => Data.reduce_reach d d' i _ h) _ d1 d2 h2)
+  | false =>
+    simp only [Bool.false_eq_true, if_false, bind_eq_ok, pure_eq, Res.ok.injEq] at h
+    obtain ⟨d2, h2, h⟩ := h
+    subst h
+    rw [Data.back_tr]
+    exact r1.trans (Data.swap_reach d1 d2 _ h2)
+
+theorem hnfIterate_reach (d d' : Data) (h : hnfIterate d = ok d') : Reach d.tr d'.tr := by
+  unfold hnfIterate at h
+  simp only [bind_eq_ok] at h
+  obtain ⟨d1, h1, b, _, h⟩ := h
+  have r1 := hnfReduce_reach d d1 _ _ h1
+  cases b with
+  | true =>
+    simp only [if_true, bind_eq_ok, pure_eq, Res.ok.injEq] at h
+    obtain ⟨d2, h2, h⟩ := h
+    subst h
+    rw [Data.next_tr]
+    exact r1.trans (revLoop_reach _ (fun d d' i h => hnfReduce_reach d d' i _ h) _ d1 d2 h2)
+  | false =>
+    simp only [Bool.false_eq_true, if_false, bind_eq_ok, pure_eq, Res.ok.injEq] at h
+    obtain ⟨d2, h2, h⟩ := h
+    subst h
+    rw [Data.back_tr]
+    exact r1.trans (Data.swap_reach d1 d2 _ h2)
+
+theorem loopWhile_reach (it : Data → Res Data) (hit : ∀ d d', it d = ok d' → Reach d.tr d'.tr) :
+    ∀ (fuel : Nat) (d d' : Data), loopWhile it fuel d = ok d' → Reach d.tr d'.tr := by
+  intro fuel
+  induction fuel with
+  | zero =>
+    intro d d' h
+    simp only [loopWhile] at h
+    split at h
+    · cases h
+    · simp only [pure_eq, Res.ok.injEq] at h; subst h; exact Reach.refl _
+  | succ f ih =>
+    intro d d' h
+    simp only [loopWhile] at h
+    split at h
+    · simp only [bind_eq_ok] at h
+      obtain ⟨d1, h1, h2⟩ := h
+      exact (hit d d1 h1).trans (ih d1 d' h2)
+    · simp only [pure_eq, Res.ok.injEq] at h; subst h; exact Reach.refl _
+
+theorem Data.setup_tr (d d' : Data) (h : d.setup = ok d') : d'.tr = d.tr := by
+  unfold Data.setup at h
+  simp only [bind_eq_ok] at h
+  obtain ⟨⟨l, dd⟩, _, h⟩ := h
+  simp only [pure_eq, Res.ok.injEq] at h
+  subst h
+  rfl
+
+theorem lll_reach (fuel m n : Nat) (A : Mat) (d : Data) (h : lll fuel m n A = ok d) :
+    Reach (Tr.init m n A) d.tr := by
+  unfold lll at h
+  simp only [bind_eq_ok] at h
+  obtain ⟨d0, h0, h⟩ := h
+  have := Data.setup_tr _ d0 h0
+  have r := loopWhile_reach lllIterate lllIterate_reach fuel d0 d h
+  rw [this] at r
+  exact r
+
+theorem hnfNormalizeLast_reach (d d' : Data) (h : hnfNormalizeLast d = ok d') : Reach d.tr d'.tr := by
+  unfold hnfNormalizeLast at h
+  split at h
+  · dsimp only at h
+    split at h
+    · exact Data.mulRowIf_reach d d' _ _ h
+    · simp only [pure_eq, Res.ok.injEq] at h; subst h; exact Reach.refl _
+  · simp only [pure_eq, Res.ok.injEq] at h; subst h; exact Reach.refl _
+
+theorem reverseRows_reach : ∀ (cnt i : Nat) (t t' : Tr), reverseRows t cnt i = ok t' → Reach t t' := by
+  intro cnt
+  induction cnt with
+  | zero => intro i t t' h; simp only [reverseRows, pure_eq, Res.ok.injEq] at h; subst h; exact Reach.refl _
+  | succ c ih =>
+    intro i t t' h
+    simp only [reverseRows] at h
+    split at h
+    · simp only [pure_eq, Res.ok.injEq] at h; subst h; exact Reach.refl _
+    · simp only [bind_eq_ok] at h
+      obtain ⟨t1, h1, h2⟩ := h
+      exact (Reach.step (.swap _ _) h1).trans (ih _ t1 t' h2)
+
+theorem lllHnf_reach (fuel m n : Nat) (A : Mat) (t : Tr) (h : lllHnf fuel m n A = ok t) :
+    Reach (Tr.init m n A) t := by
+  unfold lllHnf at h
+  simp only [bind_eq_ok] at h
+  obtain ⟨d0, h0, d1, h1, h⟩ := h
+  have r0 := loopWhile_reach hnfIterate hnfIterate_reach fuel _ d0 h0
+  exact (r0.trans (hnfNormalizeLast_reach d0 d1 h1)).trans (reverseRows_reach _ _ _ _ h)
+
+/-! ### the rounding quotient -/
+
+theorem divRound_spec' (a b q : Int) (h : divRound a b = ok q) :
+    b ≠ 0 ∧ 2 * (a - q * b).natAbs ≤ b.natAbs := by
+  unfold divRound at h
+  split at h
+  · cases h
+  · rename_i hb
+    refine ⟨hb, ?_⟩
+    have hdec : b * a.tdiv b + a.tmod b = a := Int.mul_tdiv_add_tmod a b
+    have hlt : (a.tmod b).natAbs < b.natAbs := by
+      rw [Int.natAbs_tmod]; exact Nat.mod_lt _ (Int.natAbs_pos.mpr hb)
+    have hs1 : 0 ≤ a → 0 ≤ a.tmod b := fun h => Int.tmod_nonneg b h
+    have hs2 : a ≤ 0 → a.tmod b ≤ 0 := by
+      intro h
+      have := Int.tmod_nonneg b (show 0 ≤ -a by omega)
+      rw [Int.neg_tmod] at this
+      omega
+    generalize a.tdiv b = quo at *
+    generalize a.tmod b = r at *
+    dsimp only at h
+    have hnr : ∀ x : Int, (if 0 < x then -x else x) = -(x.natAbs : Int) := by intro x; split <;> omega
+    rw [hnr r, hnr b] at h
+    split at h
+    · split at h
+      · simp only [pure_eq, Res.ok.injEq] at h
+        subst h
+        have e : a - (quo + 1) * b = r - b := by rw [← hdec]; ring
+        rw [e]
+        rename_i hc hsg
+        simp only [beq_iff_eq, decide_eq_decide] at hsg
+        omega
+      · simp only [pure_eq, Res.ok.injEq] at h
+        subst h
+        have e : a - (quo - 1) * b = r + b := by rw [← hdec]; ring
+        rw [e]
+        rename_i hc hsg
+        simp only [beq_iff_eq, decide_eq_decide] at hsg
+        omega
+    · simp only [pure_eq, Res.ok.injEq] at h
+      subst h
+      have e : a - quo * b = r := by rw [← hdec]; ring
+      rw [e]
+      rename_i hc
+      omega
 
 end Yuiv.C10
